@@ -198,7 +198,7 @@ def t7_moved_class_with_moved_base() -> Iterator[Dict[str, Any]]:
 
 def all_projects(quick: bool) -> List[Dict[str, Any]]:
     out: List[Dict[str, Any]] = []
-    for f in FAMILIES:
+    for f in family_list():
         ps = list(f())
         if quick and f is t1_base_chains:
             ps = ps[::3]
@@ -345,5 +345,32 @@ def t10_double_reexport() -> Iterator[Dict[str, Any]]:
                    mod("m3", 1, ops=flat(frm("p.m0", "A", "RA"), cls("F", "RA"), cls("G", "F")))], "T10")
 
 
-FAMILIES = [t1_base_chains, t1_exceptions, t2_star, t3_reexport, t4_cycles, t5_duplicates, t6_nested_packages,
-            t7_moved_class_with_moved_base, t8_prefix_roots, t9_reexport_while_origin_processing, t10_double_reexport]
+def family_list() -> List[Any]:
+    return [t1_base_chains, t1_exceptions, t2_star, t3_reexport, t4_cycles, t5_duplicates, t6_nested_packages,
+            t7_moved_class_with_moved_base, t8_prefix_roots, t9_reexport_while_origin_processing, t10_double_reexport,
+            t12_instance_variable_kind, t13_attribute_docstring_after_import]
+
+
+def t12_instance_variable_kind() -> Iterator[Dict[str, Any]]:
+    """T12: a class variable re-declared below an inherited instance variable becomes an instance variable; the three
+       levels live in sibling modules and the lower ones name their base without forcing its module to be analysed."""
+    from .projects import ivar, cvar
+    for form in ("import_abs", "from_rel"):
+        b1 = ([imp("p.top")], "p.top.Top") if form == "import_abs" else ([frm("top", "Top", lvl=1)], "Top")
+        b2 = ([imp("p.mid")], "p.mid.Stuff") if form == "import_abs" else ([frm("mid", "Stuff", lvl=1)], "Stuff")
+        yield project([mod("p", pkg=True), mod("top", 1, ops=flat(cls("Top", body=[ivar("var")]))),
+                       mod("mid", 1, ops=flat(b1[0], cls("Stuff", b1[1], body=[cvar("var")]))),
+                       mod("bot", 1, ops=flat(b2[0], cls("Gadget", b2[1], body=[cvar("var")])))], "T12", form=form)
+    # the middle class is re-exported by a sibling analysed after the bottom module (re-inserted at the end of the registry)
+    yield project([mod("p", pkg=True), mod("top", 1, ops=flat(cls("Top", body=[ivar("var")]))),
+                   mod("mid", 1, ops=flat(frm("top", "Top", lvl=1), cls("Stuff", "Top", body=[cvar("var")]))),
+                   mod("bot", 1, ops=flat(frm("mid", "Stuff", lvl=1), cls("Gadget", "Stuff", body=[cvar("var")]))),
+                   mod("zapi", 1, ops=[frm("mid", "Stuff", lvl=1)], all=["Stuff"])], "T12", form="reexported-middle")
+
+
+def t13_attribute_docstring_after_import() -> Iterator[Dict[str, Any]]:
+    """T13: a bare string right after an import that may or may not trigger on-demand analysis of a sibling; it documents
+       nothing (it follows an import), and the sibling's last variable must not receive it."""
+    from .projects import strdoc
+    yield project([mod("p", pkg=True), mod("client", 1, ops=flat(var("RETRIES"), frm("settings", "TIMEOUT", lvl=1), strdoc(1))),
+                   mod("settings", 1, ops=flat(var("TIMEOUT"), {**var("VERSION"), "nodoc": True}))], "T13")
